@@ -30,7 +30,10 @@ func genC08(t *rapid.T) *CaseC08 {
 	}
 	for len(c.Boxes) < n {
 		base := c.Boxes[rapid.IntRange(0, len(c.Boxes)-1).Draw(t, "base")]
-		switch rapid.IntRange(0, 4).Draw(t, "rel") {
+		switch rapid.IntRange(0, 5).Draw(t, "rel") {
+		case 5:
+			// the same zooms, 2^k +- j cells away along one axis
+			c.Boxes = append(c.Boxes, genFar(t, "far", base))
 		case 4:
 			// the same index numbers at another vertical / horizontal zoom (ground-level voxels of two resolutions)
 			nb := base
